@@ -11,6 +11,7 @@ INVARIANT C02_BornOwned
 INVARIANT C03_ViewExact
 INVARIANT C03_NsDefault
 INVARIANT C04_AdoptOnlyIf
+INVARIANT C04_ReleaseDue
 INVARIANT C04_ReleaseShape
 INVARIANT C04_OthersKept
 INVARIANT C04_OneController
